@@ -831,7 +831,15 @@ func (fc *FCtx) callByContract(c *FuncContract, fn *types.Func, sig *types.Signa
 	// `//@ counts <param>`: call-history ghost. Every call (or `go`) of this function adds one to the entry of the map
 	// ghost Count_<function name> under the value of the named integer parameter - bookkeeping at the call site, so a
 	// caller's contract can say how many handlers were started for which id.
-	if pname := c.Flags["counts"]; pname != "" {
+	if pname := c.Flags["counts"]; pname == "*" {
+		// `//@ counts *`: a plain call counter (ghost Count_<function name> of sort Int)
+		gname := "Count_" + fn.Name()
+		if g, ok := st.ghost[gname+gsufOf(gsuf)]; ok && g.S.Kind == KInt {
+			st.ghost[gname+gsufOf(gsuf)] = Val{T: fmt.Sprintf("(+ %s 1)", g.T), S: SInt, GoT: g.GoT}
+		} else {
+			oos("counts *: ghost %s (an Int) is not declared", gname)
+		}
+	} else if pname != "" {
 		gname := "Count_" + fn.Name()
 		if g, ok := st.ghost[gname+gsufOf(gsuf)]; ok && g.S.Kind == KMap {
 			kv, okk := names[pname]
